@@ -163,7 +163,12 @@ def operator_grammar(rnd, nlev=None):
         if lv:
             precs.append((rnd.choice(['left', 'right', 'nonassoc']), lv))
     if unary:
-        precs.insert(rnd.randint(0, len(precs)), (rnd.choice(['left', 'right', 'nonassoc', 'precedence']), [len(terms) - 1]))
+        if precs and rnd.random() < 0.4:
+            # the name of the unary level written on the line of an operator level, after the character literals (%right '^' UMINUS)
+            k = rnd.randrange(len(precs))
+            precs[k] = (precs[k][0], precs[k][1] + [len(terms) - 1])
+        else:
+            precs.insert(rnd.randint(0, len(precs)), (rnd.choice(['left', 'right', 'nonassoc', 'precedence']), [len(terms) - 1]))
     nonterms = [dict(name='expr', tag='v0')]
     rules = []
     for i, o in enumerate(ops):
